@@ -64,6 +64,11 @@ def modOps (s : ModSt) (ln : Nat) (t : List String) : Option (ModSt × List Stri
     let s := { s with m := sysFlush s.m }
     some ({ s with saved := (prefix_, s.m) :: s.saved.filter (·.1 != prefix_),
                    savedExt := (prefix_, s.exts) :: s.savedExt.filter (·.1 != prefix_) }, [])
+  -- M.checkpoint <prefix>: the module has just written its own checkpoint of this step under that prefix (colvarsRestartFrequency):
+  -- for the model the same as a state saved after the step (no flush of pending hills: used for extended-Lagrangian scenarios only)
+  | ["M.checkpoint", prefix_] =>
+    some ({ s with saved := (prefix_, s.m) :: s.saved.filter (·.1 != prefix_),
+                   savedExt := (prefix_, s.exts) :: s.savedExt.filter (·.1 != prefix_) }, [])
   | ["m.opt", "it", n] => some ({ s with m := { s.m with clock := { s.m.clock with it := iOfTok n, itRestart := iOfTok n } } }, [])
   | ["m.opt", "tf_same", b] => some ({ s with m := { s.m with tfSame := b != "0" } }, [])
   | ["m.opt", "tfloop", b] => some ({ s with m := { s.m with tfLoop := b != "0" } }, [])
